@@ -352,7 +352,7 @@ B("sink.style_text", ["C02", "C08"], CB, "bounded_style_sink", "CellBuffer::styl
   "the style element has exactly one text child; no raw '<'; every '&' starts one of the five entities; only XML chars; un-escaping returns the payload",
   "payloads of length <= 3 (thorough 4) over {<,&,>,],a,;,LF,U+0001,U+FFFE,\",'} in 3 channels: legend css, font family, stroke colour")
 B("C16.legend_css_format", ["C16"], CB, "bounded_legend_css_format", "CellBuffer::legend_css / add_css_styles",
-  "'.svgbob .name{ decl }' per entry, in order, joined by newlines", "0..3 entries x 3 names x 4 declarations")
+  "'.svgbob .name{ decl }' per entry (also when a name repeats), in order, joined by newlines", "0..4 entries x 3 names x 4 declarations, every second list with a repeated name")
 B("C15.escape_line", ["C15", "C01"], CB, "bounded_escape_line", "CellBuffer::escape_line (on top of parser::line_parse)",
   "never panics; quoted segments found as '\"'..next '\"'; text stored verbatim (without fillers) at the opening quote's cell; "
   "the segment's columns, quotes included, blanked; everything else untouched",
@@ -389,7 +389,7 @@ B("C16.enclose_tags", ["C16", "C10"], FTREE, "bounded_enclose_tags",
   "FragmentTree::enclose_fragments / enclose_recursive / second_pass_enclose / enclose_deep_first / Fragment::as_css_tag / can_fit (real bodies)",
   "a tag inside a rectangle or circle adds its names to the innermost enclosing shape and is not rendered; inside no shape it stays text; "
   "malformed tags and other text are rendered once, unaffected; every shape occurs exactly once",
-  "4 shapes (box, box nested in it, sibling box, circle) x 5 placements x 6 contents x 4 shape orders (precondition: shapes before texts, an enclosing shape before its content - the order endorse_to_fragment_spans produces) = 480 cases; "
+  "5 shapes (three boxes nested in each other, sibling box, circle) x 6 placements x 6 contents x 4 shape orders (precondition: shapes before texts, an enclosing shape before its content - the order endorse_to_fragment_spans produces) = 144 cases; "
   "Kani: the recursive Vec<FragmentTree> with Strings did not finish in 900 s",
   timeout=600)
 
@@ -526,3 +526,18 @@ B("RB.boxes", ["C05", "C03", "C01"], END, "bounded_boxes",
 B("C01.lazy_tables_init", ["C01", "C13"], CM, "bounded_lazy_tables_init", "every once_cell::Lazy table of map/*.rs",
   "forcing every table neither panics nor trips an assert_eq! / expect inside the initialisers (they take no input)",
   "exhaustive: there is no input to quantify over; one initialisation of all 14 tables")
+
+K("N3.canvas_margin", ["C12"], CB, "check_canvas_margin", "CellBuffer::get_size / Cell::absolute_position / Point::scale",
+  "every lattice point of an occupied cell, scaled, lies inside the canvas with one cell of margin on the right and below; scales 0.5, 8, 10, 37.5; cells < 4096",
+  timeout=600, assumes=["CellBuffer::bounds replaced by an opaque result"])
+B("N2.cellbuffer_bounds", ["C12"], CB, "bounded_cellbuffer_bounds", "CellBuffer::bounds", "per-axis min / max of the occupied cells; None iff empty",
+  "all 31 non-empty subsets of 5 cells + 2 empty drawings (BTreeMap iteration)")
+B("N3.plain_text_inside_canvas", ["C12"], CB, "bounded_plain_text_inside_canvas", "CellBuffer::get_fragment_spans / get_size / Fragment::bounds",
+  "every fragment that comes from the cell map (lines, text incl. wide characters) lies inside the canvas, at scales 0.5, 8, 37.5 "
+  "(the complement of the known finding about quoted text)",
+  "first row: all strings of <= 5 tokens over {a, e-acute, wide CJK, space, -} x 2 second rows x 3 scales")
+
+B("C11.bounds_commute_with_scale", ["C11", "C16"], FRAG, "bounded_bounds_commute_with_scale", "Fragment::bounds o Fragment::scale (Line, MarkerLine, Circle, Arc, Rect, Polygon)",
+  "bounds(scale(f, s)) = scale(bounds(f), s), so enclosure decisions made after scaling do not depend on the scale "
+  "(Text is excluded: known finding C11.text_bounds_unscaled_width)",
+  "125 coordinate triples x 7 scales x 6 fragment kinds")
